@@ -135,12 +135,21 @@ def finish(prop, spec, results, bounded, tier, seed, t0, verbose=False, partial=
         functions.append({'unit': r['unit'], 'target': r['target'], 'source_hash': r.get('info', {}).get('source_hash'),
                           'paths': r.get('info', {}).get('paths'), 'status': r['status'],
                           'dropped_calls': r.get('info', {}).get('dropped_calls')})
-        if r['status'] == 'defect':
+        if r['status'] == 'defect' and tree_changed and str(r.get('error', '')).startswith('engine exception'):
+            # a sidecar that trips over the shape of CHANGED code (a value it expected symbolic is now a literal, a local is gone ...)
+            # could not evaluate its contract there: undecided.  On the tree the baseline was recorded from the same exception is a
+            # defect of the checker (exit 3)
+            undecided.append((r['unit'], 'the sidecar could not evaluate its contract on the changed code: ' + str(r.get('error', '')).strip().splitlines()[-1][:200]))
+        elif r['status'] == 'defect':
             defects.append((r['unit'], r.get('error', '')))
         elif r['status'] == 'undecided':
             undecided.append((r['unit'], r.get('error', '')))
+        shape0 = (base or {}).get('loop_shapes', {}).get(r['unit'])
+        shape1 = r.get('info', {}).get('loop_shape')
+        reshaped = bool(base) and shape0 is not None and shape1 is not None and shape0 != shape1
         for v in r['verdicts']:
             v['unit'] = r['unit']
+            v['loops_reshaped'] = reshaped
             v['unit_unknown_used'] = r.get('info', {}).get('unknown_used') or []
             verdicts.append(v)
             solver_time += v['seconds']
@@ -165,6 +174,10 @@ def finish(prop, spec, results, bounded, tier, seed, t0, verbose=False, partial=
         elif v['status'] == 'refuted':
             if tag == 'helper':
                 drift.append(v)
+            elif v.get('loops_reshaped'):
+                # the loops of this function are not the loops the baseline was recorded with (a loop added, removed, re-nested or given
+                # another header): the loop contracts, attached by ordinal, describe other loops.  Whatever fails in this unit is undecided
+                undecided.append((v['name'], 'the loop structure of the function changed; its loop contracts are attached by ordinal and need re-attaching'))
             elif (v.get('meta') or {}).get('library_unknowns_on_path'):
                 # the path this obligation speaks about went through a library / module-level object nobody under contract models
                 # (typically the real body of a renamed helper, inlined): its result was over-approximated as arbitrary, so the
@@ -179,7 +192,7 @@ def finish(prop, spec, results, bounded, tier, seed, t0, verbose=False, partial=
                                   + ', '.join(v['unit_unknown_used'][:5])))
             else:
                 violations.append(v)
-        elif tree_changed and v['name'] in base_proved and not (v.get('meta') or {}).get('library_unknowns_on_path'):
+        elif tree_changed and v['name'] in base_proved and not (v.get('meta') or {}).get('library_unknowns_on_path') and not v.get('loops_reshaped'):
             # discharged on the recorded baseline tree, not dischargeable on this (changed) tree
             v['regressed'] = True
             violations.append(v)
@@ -319,7 +332,8 @@ def finish(prop, spec, results, bounded, tier, seed, t0, verbose=False, partial=
     if record and exit_code == 0 and not partial:
         os.makedirs(os.path.join(VERIF, 'baseline'), exist_ok=True)
         with open(os.path.join(VERIF, 'baseline', f'{prop}.json'), 'w') as f:
-            json.dump({'tree_hash': th, 'proved': sorted({v['name'] for v in verdicts if v['status'] == 'proved'})}, f, indent=0)
+            json.dump({'tree_hash': th, 'proved': sorted({v['name'] for v in verdicts if v['status'] == 'proved'}),
+                       'loop_shapes': {r['unit']: r.get('info', {}).get('loop_shape') for r in results if r.get('info', {}).get('loop_shape')}}, f, indent=0)
     if not partial and not os.environ.get('VF_NO_EVIDENCE'):
         os.makedirs(os.path.join(VERIF, 'evidence'), exist_ok=True)
         with open(os.path.join(VERIF, 'evidence', f'{prop}.json'), 'w') as f:
